@@ -126,6 +126,20 @@ def key_schedule(res: Result, fn: str, f, stores, inner_reset_call: Optional[T],
     return K
 
 
+def _converted_by(tree, vfg_, meth, inner_obs: T, obs: T) -> bool:
+    """The observation returned by `meth` is the result of a call of the module's observation converter (the function
+    that turns array leaves into host arrays and records into dicts; located by role: the wrappers-module function the
+    method calls with the inner observation) -- not the raw inner observation."""
+    if uncopy(strip_cast(obs)) is inner_obs:
+        return False
+    for cf, vars_, caller, node, result in vfg_.callsites:
+        if cf.cls is None and cf.module.name == "jumanji.wrappers" and result is not None:
+            args = [uncopy(strip_cast(v)) for v in vars_.values()]
+            if inner_obs in args and (uncopy(result) is uncopy(obs) or contains(obs, uncopy(result))):
+                return True
+    return False
+
+
 def check(tier: str) -> Result:
     tree = get_tree()
     res = Result(explanation=EXPLANATION)
@@ -148,6 +162,34 @@ def check(tier: str) -> Result:
     rc = calls[0] if len(calls) == 1 else None
     key_schedule(res, "wrappers.JumanjiToDMEnvWrapper.reset", f, st, rc, self_t)
     S = next((k for k, vs in st.items() if rc is not None and any(v is mk("proj", rc, 0) for v in vs)), None)
+    # initial key: the key argument when one is given, a constant PRNGKey otherwise (by path condition of the stores)
+    Kd = key_attr(st)
+    vinit, _, _ = init_attrs(tree, ci)
+    from .common import norm_path as _np
+    kst = [e for e in vinit.events if e.kind == "store_attr" and e.target is self_t and e.name == Kd] if Kd is not None else []
+    keyp = ip.get("key")
+    given_ok = default_ok = False
+    flat = []
+    for e in kst:
+        val = uncopy(e.value)
+        conds = [(t, pol) for t, pol, _ in _np(e.path)]
+        alts = [(val, conds)]
+        if val.kind == "choice" and val.args[0] == "ifexp" and len(val.args[2]) == 2:
+            c0, pol0 = val.args[1], True
+            from .common import norm_cond as _nc
+            c0, pol0 = _nc(c0, True)
+            alts = [(uncopy(val.args[2][0]), conds + [(c0, pol0)]), (uncopy(val.args[2][1]), conds + [(c0, not pol0)])]
+        elif val.kind == "bool" and val.args[0] == "or" and len(val.args[1]) == 2 and uncopy(val.args[1][0]) is keyp:
+            alts = [(keyp, conds + [(mk("cmp", "is", keyp, NONE), False)]), (uncopy(val.args[1][1]), conds + [(mk("cmp", "is", keyp, NONE), True)])]
+        flat += alts
+    for val, conds in flat:
+        none_pol = [pol for t, pol in conds if t.kind == "cmp" and t.args[0] == "is" and t.args[1] is keyp and t.args[2] is NONE]
+        if val is keyp and none_pol == [False]:
+            given_ok = True
+        if ext_name(val) == "jax.random.PRNGKey" and none_pol == [True] and not contains(val, keyp):
+            default_ok = True
+    res.add("C15.R1", tree.find_method(ci, "__init__").loc(), "wrappers.JumanjiToDMEnvWrapper.__init__", "initial key is the key argument when given, a fixed PRNGKey otherwise",
+            given_ok and default_ok and len(flat) == 2, f"key attribute {Kd}: " + "; ".join(f"{txt(v_, 3, 40)} under {[('' if pol else 'not ') + txt(t, 3, 30) for t, pol in c_]}" for v_, c_ in flat))
     def named_args(call: T, order):
         """keyword view of a call to a dm_env constructor whose positional order is `order`"""
         if call.kind != "call":
@@ -187,7 +229,7 @@ def check(tier: str) -> Result:
     E = mk("attr", self_t, EA)
     res.add("C15.R2", tree.find_method(ci, "__init__").loc(), "wrappers.JumanjiToGymWrapper.__init__", "the wrapped environment is stored once", [uncopy(x) for x in ia.get(EA, [])] == [ip["env"]], f"{[txt(x) for x in ia.get(EA, [])]}")
     attrs = fixed_attrs(ci, ia, EA)
-    r, st, pr, f, _ = run_method(tree, ci, "reset", attrs)
+    r, st, pr, f, vreset0 = run_method(tree, ci, "reset", attrs)
     calls = [n for n in deps(r) if n.kind == "call" and n.args[0].kind == "attr" and n.args[0].args[1] == "reset" and n.args[0].args[0] is E]
     rc = calls[0] if len(calls) == 1 else None
     st2 = {k: [x for x in vs if ext_name(x) != "jax.random.PRNGKey"] for k, vs in st.items()}
@@ -224,11 +266,14 @@ def check(tier: str) -> Result:
         tsr = mk("proj", rc, 1)
         ok = contains(obs, mk("attr", tsr, "observation")) and not any(contains(obs, mk("attr", tsr, x)) for x in ("reward", "discount", "extras", "step_type"))
         res.add("C15.R3", f.loc(), "wrappers.JumanjiToGymWrapper.reset", "returned observation is converted from the inner reset observation only", ok, txt(obs, 3, 120))
+        conv = _converted_by(tree, vreset0, f, mk("attr", tsr, "observation"), obs)
+        res.add("C15.R3", f.loc(), "wrappers.JumanjiToGymWrapper.reset", "returned observation went through the gym observation converter (host arrays / nested dicts)", conv,
+                "jumanji_to_gym_obs(inner observation)" if conv else f"{txt(obs, 3, 100)} is handed out without conversion: a nested observation is not a member of the converted Dict space")
         ok = ext_name(info) == "jax.device_get" and info.args[1] == (mk("attr", tsr, "extras"),)
         res.add("C15.R3", f.loc(), "wrappers.JumanjiToGymWrapper.reset", "returned info is the inner extras", ok, txt(info, 4, 120))
     else:
         res.add("C15.R3", f.loc(), "wrappers.JumanjiToGymWrapper.reset", "returns (observation, info)", False, txt(r, 4, 160))
-    r, st, pr, f, _ = run_method(tree, ci, "step", attrs)
+    r, st, pr, f, vstep = run_method(tree, ci, "step", attrs)
     calls = [n for n in deps(r) if n.kind == "call" and n.args[0].kind == "attr" and n.args[0].args[1] == "step" and n.args[0].args[0] is E]
     sc = calls[0] if len(calls) == 1 else None
     ok = sc is not None and len(sc.args[1]) == 2 and S is not None and sc.args[1][0] is mk("attr", self_t, S) and strip_cast(sc.args[1][1]) is pr["action"]
@@ -240,6 +285,9 @@ def check(tier: str) -> Result:
         res.add("C15.R2", f.loc(), "wrappers.JumanjiToGymWrapper.step", "the state attribute <- state returned by the inner step", ss == [mk("proj", sc, 0)], f"attribute {S}: {[txt(s_, 4, 80) for s_ in ss]}")
         ok = contains(obs, mk("attr", ts, "observation")) and not any(contains(obs, mk("attr", ts, x)) for x in ("reward", "discount", "extras", "step_type"))
         res.add("C15.R3", f.loc(), "wrappers.JumanjiToGymWrapper.step", "observation is converted from the inner observation only", ok, txt(obs, 3, 120))
+        conv = _converted_by(tree, vstep, f, mk("attr", ts, "observation"), obs)
+        res.add("C15.R3", f.loc(), "wrappers.JumanjiToGymWrapper.step", "observation went through the gym observation converter (host arrays / nested dicts)", conv,
+                "jumanji_to_gym_obs(inner observation)" if conv else f"{txt(obs, 3, 100)} is handed out without conversion: a nested observation is not a member of the converted Dict space")
         res.add("C15.R3", f.loc(), "wrappers.JumanjiToGymWrapper.step", "reward is the inner reward", strip_cast(rew) is mk("attr", ts, "reward"), txt(rew, 4, 100))
         t = strip_cast(term)
         ok = t.kind == "un" and t.args[0] in ("~", "not") and strip_cast(t.args[1]) is mk("attr", ts, "discount")
